@@ -2,7 +2,7 @@ from .common import COMMON_TB
 
 CFG = dict(
     coq="Properties/C12.v",
-    areas=["c12"],
+    areas=["c12", "mt"],
     level="proof",
     theorems_expected=["C12_xz_multi", "C12_xz_bad_padding", "C12_xz_garbage_after_stream", "C12_xz_single_stream_stops",
                        "C12_xz_concat_refuted", "C12_xz_trailing_padding_refuted", "C12_lzip_multi", "C12_lzip_trailing_data"],
